@@ -76,7 +76,7 @@ func PageIndividual(document *gedcom.Document, individual *gedcom.IndividualNode
 		}
 	}
 
-	individuals := GetIndividuals(document, placesMap)
+	individuals := getVisibleIndividuals(document, visibility, placesMap)
 
 	for key, value := range individuals {
 		if value.Is(individual) {
